@@ -27,7 +27,9 @@ RULE = ("classes built on the eligibility boundary of trusted deserialization: e
         "ignore_invalid_additional_properties in 3x2; mode construct: cls(**kw) vs from_trusted_data(None, **kw) / "
         "from_trusted_data(mapping) / trust_supplied_values; mode fast: FastSerializable twin class trees (12% of nested "
         "classes not fast), create_serializer with serialize_none x compact in 2x2, x.serialize() vs Serializer(twin); "
-        "every case builds fresh classes; distinct by case hash")
+        "for flag-free cases the serializer also comes to exist implicitly at first instantiation, or implicitly for a "
+        "SUBCLASS (fields split over a parent and a child class) after the parent was instantiated / got its own "
+        "serializer; JSON arrays of Set fields repeat elements; every case builds fresh classes; distinct by case hash")
 ASSUMPTIONS = [
     "fail-fast mode, no Versioned classes, no Constant fields, no class inheritance, no uniqueness features",
     "rename mappers are injective on the class's fields (key collisions are C07's subject); one mapper per class, no lists of mappers "
@@ -47,15 +49,14 @@ TRUSTED_EXTRA = [
 # order in which a violation observed outside the proved region is attributed to a named defect
 PRIORITY = [
     # trusted deserialization
-    "crash:enum-mapping", "unnormalised:array-of-enum", "dropped:set-items",
-    "optional-unchecked:non-none-option", "optional-unchecked:none-first", "unnormalised:optional-immutable-set",
+    "unnormalised:optional-immutable-set", "unnormalised:anyof-enum",
     "none-attribute-hash:set-of-structures",
     "dropped:undeclared-keys", "unnormalised:boolean-string", "defaults-not-applied",
     "unnormalised:enum-name", "unnormalised:inline-dict", "unnormalised:float-int",
     "mapper:cascade", "mapper:fallback",
     # fast serialization: instance-level causes first, then declaration-level ones
     "fast:extras-dropped", "fast:compact-conditions",
-    "fast:tuple-index", "fast:positional-index", "fast:json-dumps", "fast:untyped-raw", "fast:inline-none-keys",
+    "fast:positional-index:deque", "fast:json-dumps", "fast:untyped-raw", "fast:inline-none-keys",
     "fast:nonfast-nested", "fast:mapper-cascade", "fast:multi-wrapper",
 ]
 
@@ -179,10 +180,6 @@ def judge_trusted(case, impl, model):
                         detail = json.dumps(sx["ok"])[:150] + " vs " + json.dumps(sy["ok"])[:150]
             if what:
                 tag_list = list(model.get("declDefects", [])) + list(model.get("docIssues", []))
-                if not mapper_free and any(m in ("complex", "complex-list") for n, m in case.get("mappers", [])
-                                           if n != cls["name"]):
-                    # a nested class with an unsupported mapper can only be reached through an Optional
-                    tag_list.append("optional-unchecked:non-none-option")
                 if not mapper_free and model.get("cascade"):
                     tag_list.append("mapper:cascade")
                 if not mapper_free and _uses_unmapped_names(cls, case["doc"], case.get("mapperSpec") or {}):
